@@ -3,6 +3,7 @@
 package hashing
 
 import (
+	"bytes"
 	"fmt"
 	"os"
 	"path/filepath"
@@ -27,6 +28,7 @@ const (
 	KDangling = "dangling"
 	KSymlink  = "symlink"
 	KVanish   = "vanishing"
+	KShrink   = "shrinking"            // cut to nothing in place and filled again while being hashed (cp over it, an editor saving)
 	KUnread   = "unreadable-dir-entry" // a path below a regular file (ENOTDIR)
 	KReadFail = "opens-but-read-fails" // /proc/self/mem: open succeeds, the first read returns EIO
 	KLoop     = "link-to-itself"       // open fails with ELOOP
@@ -64,8 +66,12 @@ var readFailPath = func() string {
 	return p
 }()
 
+// shrinking: the paths of the current case that are cut in place rather than removed.
+var shrinking = map[string]bool{}
+
 // build creates the entries under root and returns the path list.
 func (c ListCase) build(root string) ([]string, []string, error) {
+	shrinking = map[string]bool{}
 	var paths, vanishing []string
 	for i, k := range c.Kinds {
 		p := filepath.Join(root, fmt.Sprintf("e%03d", i))
@@ -100,6 +106,12 @@ func (c ListCase) build(root string) ([]string, []string, error) {
 				return nil, nil, err
 			}
 			vanishing = append(vanishing, p)
+		case KShrink:
+			if err := os.WriteFile(p, []byte(strings.Repeat("s", 1<<16)), 0o644); err != nil {
+				return nil, nil, err
+			}
+			vanishing = append(vanishing, p)
+			shrinking[p] = true
 		case KReadFail:
 			if readFailPath == "" {
 				// no such file here: fall back to a missing one (still an entry that cannot be read)
@@ -169,7 +181,7 @@ func execList(s *ev.Shard, root string, c ListCase) *rp.Fail {
 		switch {
 		case faulty(k):
 			nFaulty++
-		case k == KVanish:
+		case k == KVanish || k == KShrink:
 			nVanish++
 		case k == KRegular || k == KEmpty || k == KSymlink:
 			nRegular++
@@ -185,6 +197,16 @@ func execList(s *ev.Shard, root string, c ListCase) *rp.Fail {
 			defer wg.Done()
 			for !stop.Load() {
 				for _, p := range vanishing {
+					if shrinking[p] {
+						// same file, same inode: its length drops to zero under the reader and grows again
+						_ = os.Truncate(p, 0)
+						runtime.Gosched()
+						if f, err := os.OpenFile(p, os.O_WRONLY, 0); err == nil {
+							_, _ = f.Write(bytes.Repeat([]byte("t"), 1<<16))
+							_ = f.Close()
+						}
+						continue
+					}
 					_ = os.Remove(p)
 					runtime.Gosched()
 					_ = os.WriteFile(p, []byte(strings.Repeat("w", 4096)), 0o644)
